@@ -986,6 +986,9 @@ func (p *parser) scanGroupOpen() (*RegexNode, error) {
 		}
 		return newRegexNodeMN(NtCapture, p.options, p.consumeAutocap(), -1), nil
 	}
+	// a (?...) construct (e.g. an explicit lookaround used as a condition) uses up
+	// the flag too, otherwise it would leak to an unrelated later group
+	p.ignoreNextParen = false
 
 	p.moveRight(1)
 
